@@ -2,7 +2,10 @@ package queue
 
 import (
 	"fmt"
+	"strings"
 	"time"
+
+	mod "github.com/craterdog/go-collection-framework/v4"
 
 	col "github.com/craterdog/go-collection-framework/v4/collection"
 	rt "github.com/craterdog/go-collection-framework/v4/verifrt"
@@ -86,7 +89,7 @@ func constructorLadder(r *engine.Rec) {
 		Form string `json:"form"`
 		N    int    `json:"n"`
 	}
-	forms := []string{"MakeFromArray", "MakeFromSequence"}
+	forms := []string{"MakeFromArray", "MakeFromSequence", "module Queue(values)", "module Queue(sequence)", "module Queue(source)", "ParseSource(Queue literal)"}
 	for _, form := range forms {
 		for n := 0; n <= 64; n++ {
 			c := ccase{form, n}
@@ -98,15 +101,37 @@ func constructorLadder(r *engine.Rec) {
 				vals[i] = i + 1
 			}
 			var q col.QueueLike[int]
+			var items []string
+			vals64 := make([]int64, n)
+			for i := range vals {
+				items = append(items, fmt.Sprint(vals[i]))
+				vals64[i] = int64(vals[i])
+			}
+			source := "[" + strings.Join(items, ", ") + "](Queue)"
+			if n == 0 {
+				source = "[ ](Queue)"
+			}
+			size := -1
 			body := func() {
 				switch form {
 				case "MakeFromArray":
 					q = col.Queue[int](common.N()).MakeFromArray(vals)
 				case "MakeFromSequence":
 					q = col.Queue[int](common.N()).MakeFromSequence(col.List[int](common.N()).MakeFromArray(vals))
+				case "module Queue(values)":
+					q = mod.Queue[int](vals)
+				case "module Queue(sequence)":
+					q = mod.Queue[int](col.List[int](common.N()).MakeFromArray(vals))
+				case "module Queue(source)":
+					size = mod.Queue[int64](source).GetSize()
+				case "ParseSource(Queue literal)":
+					size = mod.ParseSource(source).(col.QueueLike[any]).GetSize()
+				}
+				if q != nil {
+					size = q.GetSize()
 				}
 			}
-			ex := rt.RunOnce(rt.Config{Elide: true}, nil, []rt.ThreadSpec{{Name: "ctor", Body: body}})
+			ex := rt.RunOnce(rt.Config{Elide: true, FuelTotal: 50000000}, nil, []rt.ThreadSpec{{Name: "ctor", Body: body}})
 			r.Evals++
 			r.States++
 			r.Transitions++
@@ -124,12 +149,12 @@ func constructorLadder(r *engine.Rec) {
 				r.Violation("constructor "+form+" panics", ex.Panics[0].Value, c)
 			default:
 				r.Outcome("returned")
-				if q.GetSize() != n && n <= int(q.GetCapacity()) {
-					r.Violation("constructor "+form+" wrong size", fmt.Sprint(q.GetSize(), n), c)
+				if size != n {
+					r.Violation("constructor "+form+" wrong size", fmt.Sprint(size, n), c)
 				}
 			}
 		}
 	}
-	r.Distinct += 130
+	r.Distinct += 390
 	r.Sample(map[string]any{"constructor": "MakeFromArray", "N": "0..64"})
 }
